@@ -489,6 +489,12 @@ func anywhere(r rune, p *Parser) stateFn {
 			p.exit = nil
 		}
 		p.clear()
+		if p.r.Buffered() > 0 {
+			// The bytes which follow are already here: this is not a
+			// lone Escape key, however late this goroutine gets to
+			// look at them
+			return escape
+		}
 		gen := p.escGen
 		p.escTimeout = time.AfterFunc(10*time.Millisecond, func() {
 			// Hold the lock while emitting: the read loop must not
